@@ -241,7 +241,9 @@ def run_case(c):
             # samples obtained by indexing: the per-channel settings must follow the columns
             subs = [('d[:, 1:]', d[:, 1:], [1, 2, 3]), ('d[:, ::-1]', d[:, ::-1], [3, 2, 1, 0]), ("d[:, ['CH4', 'CH2']]", d[:, ['CH4', 'CH2']], [3, 1]),
                     ('d[100:200, 2:]', d[100:200, 2:], [2, 3]), ('d[:, 1:3][:, ::-1]', d[:, 1:3][:, ::-1], [2, 1]), ("d[:, 'CH2']  (1-D)", None, None),
-                    ('d[::7, [0, 1]]', d[::7, [0, 1]], [0, 1]), ('d[:, -3:-1]', d[:, -3:-1], [1, 2])]
+                    ('d[::7, [0, 1]]', d[::7, [0, 1]], [0, 1]), ('d[:, -3:-1]', d[:, -3:-1], [1, 2]),
+                    ('d[:0]  (no events)', d[:0], [0, 1, 2, 3]), ('d[5:6]  (one event)', d[5:6], [0, 1, 2, 3]),
+                    ('d[d[:, 0] > 5000]  (mask selecting nothing)', d[np.asarray(d[:, 0]) > 5000], [0, 1, 2, 3]), ('d[:1, [3]]', d[:1, [3]], [3])]
             for label, sub, cols in subs:
                 if sub is None:
                     continue
@@ -256,6 +258,12 @@ def run_case(c):
                         continue
                     if expect_ok(res, 'subsample', what, sub, sbase, t, {i: law(cols[i], None, None, None) for i in sel}, dict(c)):
                         res.ok('subsample', True)
+                        # the converted limits do not depend on which events are present
+                        full_t = to_rfi(d, [cols[i] for i in sel])
+                        for i in sel:
+                            if [float(x).hex() for x in t.range(i)] != [float(x).hex() for x in full_t.range(cols[i])]:
+                                res.violation('subsample:range', '%s: range of channel %d is %r, the full sample converts to %r' % (what, i, t.range(i), full_t.range(cols[i])), dict(c))
+                                break
             res.sample({'subsamples': [x[0] for x in subs]})
         elif c['kind'] == 'spelling':
             # the same amplifier settings written with other numeric spellings in $PnE / $PnG
